@@ -183,6 +183,11 @@ def r14_funnel(ctx, rule='R14f'):
     raises = [n for n in own_nodes(re_.node) if isinstance(n, ast.Raise)]
     run.check(any(r.cause is not None and isinstance(r.cause, ast.Name) and r.cause.id == cause for r in raises),
               rule, re_.where, re_.qualname, 'raise error from cause', 'the original exception is not chained as __cause__')
+    from sa.pattern import has_stmt
+    call = dsp.methods.get('__call__')
+    run.check(call is not None and has_stmt('self.position = position', call.node) and has_stmt('self.source = source', call.node)
+              and has_stmt('return self', call.node), rule, dsp.where, dsp.qualname + '.__call__', 'stores source and position',
+              'a step does not remember its position in the flow (errors would name the wrong step) or its upstream')
     # ProcessorError keeps .cause
     pe = ctx.repo.cls('dataflows.base.exceptions:ProcessorError')
     init = pe.methods.get('__init__')
